@@ -190,13 +190,33 @@ NS = re.compile(r'^namespace\s+(\S+)', re.M)
 
 
 def property_theorems(pid):
-    """Names of the theorems of lean/DTML/Props/<pid>.lean (fully qualified)."""
+    """Names of the theorems of lean/DTML/Props/<pid>.lean (fully qualified; nested namespaces are followed)."""
     path = os.path.join(LEAN, 'DTML', 'Props', pid + '.lean')
     with open(path) as f:
         src = strip_comments(f.read())
-    ns = NS.search(src)
-    prefix = (ns.group(1) + '.') if ns else ''
-    return [prefix + m.group(1) for m in THM.finditer(src)]
+    stack = []          # open namespaces / sections: (kind, name)
+    names = []
+    for line in src.split('\n'):
+        m = re.match(r'^\s*namespace\s+(\S+)', line)
+        if m:
+            stack.append(('ns', m.group(1)))
+            continue
+        if re.match(r'^\s*(?:noncomputable\s+)?mutual\s*$', line):
+            stack.append(('mut', ''))
+            continue
+        m = re.match(r'^\s*section\b\s*(\S*)', line)
+        if m:
+            stack.append(('sec', m.group(1)))
+            continue
+        m = re.match(r'^\s*end\b\s*(\S*)\s*$', line)
+        if m and stack:
+            stack.pop()
+            continue
+        m = re.match(r'^(?:private\s+|protected\s+)?theorem\s+([A-Za-z_][A-Za-z0-9_\.\']*)', line)
+        if m and not line.startswith('private'):
+            prefix = '.'.join(n for k, n in stack if k == 'ns')
+            names.append((prefix + '.' if prefix else '') + m.group(1))
+    return names
 
 
 def audit_axioms(pid):
